@@ -30,6 +30,37 @@ class Infra(Exception):
     """Infrastructure failure: exit 2, never a VIOLATION."""
 
 
+class EnginePanic(Exception):
+    """The recorder process died from a Go panic raised inside chess-3 code (not inside the harness)."""
+
+
+def panic_in_engine(stderr):
+    """Innermost non-runtime frame of the first goroutine trace: is it outside /verif (i.e. in the engine)?"""
+    if "panic:" not in stderr and "fatal error:" not in stderr:
+        return False
+    seen = False
+    for line in stderr.splitlines():
+        t = line.strip()
+        if t.startswith("panic(") or t.startswith("goroutine "):
+            seen = True
+            continue
+        if seen and t.startswith("/") and ".go:" in t:
+            if "/runtime/" in t or "/toolchain@" in t or "/go/src/" in t:
+                continue
+            return "/verif/" not in t and "rec-tuner" not in t
+    return False
+
+
+def run_recorder(cmd, timeout=900, cwd=None):
+    """Run a trace recorder; a death by engine panic is an observation (EnginePanic), anything else is Infra."""
+    p = subprocess.run(cmd, cwd=cwd, timeout=timeout, stdout=subprocess.PIPE, stderr=subprocess.PIPE, text=True)
+    if p.returncode != 0:
+        if panic_in_engine(p.stderr):
+            raise EnginePanic(p.stderr[-3000:])
+        raise Infra("command failed (%d): %s\n%s\n%s" % (p.returncode, " ".join(map(str, cmd)), p.stdout[-2000:], p.stderr[-3000:]))
+    return p
+
+
 def log(*a):
     print(*a, file=sys.stderr, flush=True)
 
